@@ -93,6 +93,16 @@ def safe_div(numerator, denominator):
         raise RuntimeError() from division_error
     finally:
         pass
+def cached_lookup(table, wanted_key, cache):
+    try:
+        found_entry = table[wanted_key]
+        if found_entry is None:
+            return
+    except KeyError:
+        cache[wanted_key] = None
+        return None
+    else:
+        cache[wanted_key] = found_entry * 2
 class Registry:
     entries = {}
     def register(self_r, entry_name: str, entry_value: object = None) -> None:
